@@ -637,16 +637,6 @@ class C18(Check):
             out.append({'name': 'list_instances() equals the regenerated inst_sizes table', 'ok': False, 'detail': repr(e)})
         return out
 
-    def refuted_witnesses(self):
-        def scalar_bdf():
-            st = Components()
-            case = {'name': 'nic1', 'sel': ['tm', 'SmartNIC', 'ConnectX-6'], 'nsid': None, 'ids': ['a', 'b'],
-                    'labs': ['s', None], 'parent': None}
-            o = st.observe(case)
-            why = st.oracle(case, o)
-            return bool(why and 'scalar bdf' in why), {'case': case, 'observation': o, 'why': why}
-        return [('C18_units_scalar_bdf_refuted', scalar_bdf)]
-
 
 if __name__ == '__main__':
     sys.exit(main(C18()))
